@@ -39,6 +39,8 @@ class X:
     x = 1
 class BX(B):
     x = 2
+class X0:
+    x = 0
 class AM(A, metaclass=M): pass
 A.__rank__ = 1
 D.__rank__ = None
@@ -52,11 +54,11 @@ class VS(V): pass
 '''
 _ns = {}
 exec(SRC_CLASSES, _ns)
-CLS = {k: _ns[k] for k in "A B C D E X BX M AM L AB V VS".split()}
+CLS = {k: _ns[k] for k in "A B C D E X BX M AM L AB V VS X0".split()}
 # AM: a subclass of A that also has the metaclass M (criteria are a conjunction); L: typing.List[int], not a class --
 # issubclass() raises TypeError for it, which the registry documents as "this registration does not match"
 # V is a *virtual* subclass of the abstract class AB (AB.register(V)), VS a real subclass of V
-RESOLVE_TARGETS = ["A", "B", "C", "D", "E", "X", "BX", "AM", "L", "V", "VS"]
+RESOLVE_TARGETS = ["A", "B", "C", "D", "E", "X", "BX", "AM", "L", "V", "VS", "X0"]      # X0: the attribute x exists and is falsy
 
 # registration menu: (classes, allow_subclasses, priority, attr, metaclass, detector-name)
 FULL_MENU = []
@@ -185,6 +187,8 @@ def shards(tier):
             out.append(("fresh", menu, depth, (first,)))
         for first in range(len(op_list(QUICK_MENU, "real"))):
             out.append(("real", menu, 3, (first,)))
+        for first in range(len(op_list(QUICK_MENU, "encoder"))):
+            out.append(("encoder", menu, 3, (first,)))
     else:
         n = len(op_list(MID_MENU, "fresh"))
         for a in range(n):
@@ -194,6 +198,8 @@ def shards(tier):
             out.append(("fresh", "full", 3, (a,)))
         for a in range(len(op_list(MID_MENU, "real"))):
             out.append(("real", "mid", 4, (a,)))
+        for a in range(len(op_list(MID_MENU, "encoder"))):
+            out.append(("encoder", "mid", 4, (a,)))
     return out
 
 
@@ -204,8 +210,8 @@ MENUS = {"quick": QUICK_MENU, "mid": MID_MENU, "full": FULL_MENU}
 def op_list(menu, sysname="fresh"):
     # the non-class target L is only resolved on the fresh registry (the process-wide one has its own registrations
     # for generic aliases, which the model does not know)
-    targets = [t for t in RESOLVE_TARGETS if not (sysname == "real" and t == "L")]
-    menu = [e for e in menu if not (sysname == "real" and e[3] == "__origin__")]
+    targets = [t for t in RESOLVE_TARGETS if not (sysname in ("real", "encoder") and t == "L")]
+    menu = [e for e in menu if not (sysname in ("real", "encoder") and e[3] == "__origin__")]
     # "rereg": the function object of registration #0 registered again under other criteria (a converter may serve
     # several registrations; none of them may disappear)
     rereg = [e for e in menu if e in REREG_ENTRIES]
@@ -303,6 +309,65 @@ class RealSystem:
         self.reg._cache.update(self.snap[1])
 
 
+class EncoderSystem:
+    """The process-wide encoder registry, driven through utype.register_encoder and json.dumps(cls=JSONEncoder):
+    which encoder serves an instance of the class."""
+    name = "encoder"
+
+    def __init__(self):
+        from utype.utils import encode as _enc
+        self._enc = _enc
+        self.reg = _enc.encoder_registry
+        self.snap = (list(self.reg._registry), dict(self.reg._cache))
+        self.n = 0
+        self.first = None
+        self.lazy_fired = self.lazy_now = False
+
+    def register(self, entry, reuse=False):
+        classes, allow, prio, attr, meta, det = entry
+        idx = self.n
+        self.n += 1
+
+        def f(data, __idx=idx):
+            return {"converted-by": __idx}
+        f.idx = idx
+        if reuse and self.first is not None:
+            f = self.first
+        if self.first is None:
+            self.first = f
+        kw = dict(allow_subclasses=allow, priority=prio)
+        if attr:
+            kw["attr"] = attr
+        if meta:
+            kw["metaclass"] = CLS[meta]
+        if det:
+            kw["detector"] = DETECTORS[det]
+        utype.register_encoder(*[CLS[c] for c in classes], **kw)(f)
+
+    def resolve(self, tname):
+        import json
+        try:
+            text = json.dumps(CLS[tname](), cls=self._enc.JSONEncoder)
+        except Exception:
+            return None           # no encoder: "not JSON serializable"
+        try:
+            return json.loads(text)["converted-by"]
+        except Exception:
+            return "foreign"
+
+    def cached(self):
+        return frozenset((c.__name__, getattr(f, "idx", "foreign")) for c, f in self.reg._cache.items()
+                         if c in CLS.values())
+
+    def close(self):
+        self.reg._registry[:] = self.snap[0]
+        self.reg._cache.clear()
+        self.reg._cache.update(self.snap[1])
+        memo = getattr(self._enc.JSONEncoder, "_memo", None)
+        if isinstance(memo, dict):
+            memo.clear()
+
+
 def replay(system_cls, ops):
     """Replays a history; returns (system, [(op_index, target, expected, actual)...] for resolves)."""
     s = system_cls()
@@ -336,11 +401,11 @@ def replay(system_cls, ops):
 
 
 def make_script(sysname, ops):
-    if any(k == "rereg" or (k == "reg" and a[5] == "det_lazy") for k, a in ops):
+    if sysname == "encoder" or any(k == "rereg" or (k == "reg" and a[5] == "det_lazy") for k, a in ops):
         # shared function objects / the detector with a side effect: replayed through this module
         return "\n".join([
             "import sys", "sys.path.insert(0, '/verif')", "from utmc.props import c16", f"ops = {ops!r}",
-            f"s, regs, obs = c16.replay(c16.{'FreshSystem' if sysname == 'fresh' else 'RealSystem'}, ops)", "s.close()",
+            f"s, regs, obs = c16.replay(c16.{ {'fresh': 'FreshSystem', 'real': 'RealSystem', 'encoder': 'EncoderSystem'}[sysname] }, ops)", "s.close()",
             "for line in c16.fmt_ops(ops): print(line)",
             "for i, target, exp, act in obs: print('resolve(%s): expected the function of registration %r, got %r' % (target, exp, act))",
             "sys.exit(1 if any(o[2] != o[3] for o in obs) else 0)"]) + "\n"
@@ -399,7 +464,7 @@ def fmt_ops(ops):
 
 def run_shard(shard, tier):
     sysname, menuname, depth, prefix = shard
-    system_cls = FreshSystem if sysname == "fresh" else RealSystem
+    system_cls = {"fresh": FreshSystem, "real": RealSystem, "encoder": EncoderSystem}[sysname]
     ops_all = op_list(MENUS[menuname], sysname)
     acc = Acc()
     seen = {}   # state -> largest remaining depth it was expanded with
